@@ -15,8 +15,9 @@ def exprs(rng, n):
         for ch in ["A", "b", "Γ", "α", "7", "Б"]:
             lead.append(mml.math(mml.mrow(mml.N("mi" if not ch.isdigit() else "mn", text=ch, attrs={"mathvariant": v}), mml.mo("+"), mml.mn("12"))))
     rng.shuffle(lead)
-    lead = [mml.math(mml.mrow(mml.mi(ch), mml.mo("+"), mml.mn("1"))) for ch in ["б", "Б", "α", "Ω", "ℵ", "A"]] + lead
-    return lead[:16] + mml.corpus_basic()[:12] + [mml.math(mml.gen_expr(rng, rng.randrange(1, 3))) for _ in range(n)]
+    lead = [mml.math(mml.mrow(mml.mi(ch), mml.mo("+"), mml.mn("1"))) for ch in ["б", "Б", "α", "Ω", "ℵ", "A"]] + \
+           [mml.math(mml.mrow(mml.mi("x"), mml.mo("+"), mml.mi("∞"))), mml.math(mml.mrow(mml.mo("∃"), mml.mi("x"), mml.mo("="), mml.mi("∞")))] + lead
+    return lead[:18] + mml.corpus_basic()[:12] + [mml.math(mml.gen_expr(rng, rng.randrange(1, 3))) for _ in range(n)]
 
 
 def erase78(s):
@@ -97,6 +98,12 @@ def run(ctx):
                         a, e = bp["v"]
                         if not (a <= e <= len(out)):
                             oracle_fail.append({"why": "braille position outside the braille string", "code": code, "style": style, "id": i, "xml": xml, "pos": [a, e], "len": len(out), "lines": lines})
+                        elif style in ("EndPoints", "All") and i in ids and out != plain and erase78(out) == erase78(plain):
+                            # the reported range is the range of the cells that carry dots 7-8 in get_braille(id)
+                            marked = [k for k, (x, y) in enumerate(zip(out, plain)) if x != y]
+                            if marked and (a != marked[0] or e not in (marked[-1], marked[-1] + 1)):
+                                oracle_fail.append({"why": "get_braille_position does not report the range of the highlighted cells", "code": code, "style": style, "id": i, "xml": xml, "pos": [a, e],
+                                                    "highlighted_cells": [marked[0], marked[-1]], "braille": out, "lines": lines})
                     elif bp is not None and bp.get("r") == "err":
                         oracle_fail.append({"why": "get_braille_position failed for a node of the expression", "code": code, "style": style, "id": i, "xml": xml, "msg": bp.get("msg", "")[-200:], "lines": lines})
                     if nid is not None and nid.get("v") != [i, 0]:
